@@ -14,7 +14,7 @@
    implementation (computed from the definition's AST). *)
 From Coq Require Import List NArith.
 From BpafModel Require Import Shell Complete Message CompEval.
-From BpafLemmas Require Import ShellLaws CompleteLaws CompInert CompAlways CompNever.
+From BpafLemmas Require Import ShellLaws CompleteLaws CompInert CompAlways CompNever CompVisible.
 Import ListNotations.
 
 (* a flag/argument name is offered only if the typed text is empty or `-`, or is exactly its short
@@ -159,6 +159,34 @@ Theorem C14_request_kept_by_every_parser :
   forall env docgen p x, xinv rv its x -> xinv rv its (snd (ceval env docgen p x)) /\ rfin (fst (ceval env docgen p x)).
 Proof. intros rv its Hr Hl env docgen p. exact (proj1 (ceval_good_all rv its Hr Hl env docgen) p). Qed.
 Print Assumptions C14_request_kept_by_every_parser.
+
+(* Hidden items are never offered, for EVERY parser definition: every flag / argument / command NAME among the hints a
+   run collects is the name of a VISIBLE item of the definition (`vis_names` / `vis_cmds` skip everything under hide()),
+   wherever the hidden part stands -- under any wrapper, in an alternative, a group or a subcommand; the plumbing
+   (stash, swap, titles, completer values, shell completers, the keep_a / keep_b rule of alternatives, the clones of
+   adjacent groups) never invents a name.  Mutual induction over the parser (Lemmas/CompVisible.v).  Together with the
+   second stage (C14_candidates_from_deepest_hints_partial, C14_candidate_shape_partial: every candidate stems from a hint) no candidate carries a name
+   that only a hidden item has. *)
+Theorem C14_hints_name_visible_items_only :
+  forall env docgen o s c,
+    kall (ovis_names o) (ovis_cmds o)
+         (snd (snd (crun_sub env docgen o (s, Some (mkCst [] (cs_rev c) (cs_nopos c)))))).
+Proof. exact run_hints_name_visible_items. Qed.
+Print Assumptions C14_hints_name_visible_items_only.
+
+Theorem C14_every_parser_pushes_visible_names_only :
+  forall env docgen p Vn Vc,
+    incl (vis_names p) Vn -> incl (vis_cmds p) Vc ->
+    forall x, kall Vn Vc (snd x) -> kall Vn Vc (snd (snd (ceval env docgen p x))).
+Proof. intros env docgen p Vn Vc Hn Hc. exact (proj1 (ceval_visible_all env docgen) p Vn Vc Hn Hc). Qed.
+Print Assumptions C14_every_parser_pushes_visible_names_only.
+
+(* non-vacuity: a visible switch --alpha next to a hidden switch --beta: only --alpha is a visible name *)
+Example C14_example_visible_names :
+  vis_names (XCon (XCons (XFlag (mkNamed [] [[97;108;112;104;97]%N] [] None) (VBool true) (Some (VBool false)))
+                  (XCons (XHide (XFlag (mkNamed [] [[98;101;116;97]%N] [] None) (VBool true) (Some (VBool false)))) XNil)))
+  = [(None, Some [97;108;112;104;97]%N)].
+Proof. reflexivity. Qed.
 
 (* hidden items are never offered: whatever a parser under hide() pushed is dropped, the hints after it are the hints
    collected before it *)
